@@ -1,7 +1,8 @@
 (* C05: assembly of the byte-level statements. *)
 From Gv Require Import lib.Bytes lib.Gql C05.Lex C05.Parse C05.Limits C05.Print C05.Spec C05.Tokens
-  C05.ProofsLex C05.ProofsLimits C05.ProofsParse C05.ProofsTotal C05.ProofsRoundtrip C05.ProofsWf C05.ProofsMisc.
+  C05.ProofsLex C05.ProofsLimits C05.ProofsParse C05.ProofsTotal C05.ProofsRoundtrip C05.ProofsWf C05.ProofsMisc C05.ProofsInline.
 From Coq Require Import ZArith.
+Open Scope N_scope.
 
 Lemma bytes_eqb_eq : forall a b, bytes_eqb a b = true -> a = b.
 Proof.
@@ -62,11 +63,30 @@ Qed.
 
 (* limits on bytes *)
 Theorem limits_sound_bytes_proof : forall L F b d r v dp fl,
-  parse_bytes b = Ok d r -> exceeds L F d -> tokenize_limits true L F b = Some (v, dp, fl) -> v <> LOk.
+  parse_bytes b = Ok d r -> exceeds_cum L F d -> tokenize_limits true true L F b = Some (v, dp, fl) -> v <> LOk.
 Proof.
   intros L F b d r v dp fl Hp He Ht. unfold parse_bytes in Hp. unfold tokenize_limits in Ht.
   destruct (lex b) as [ts|]; [|discriminate Hp]. inversion Ht as [Hr].
   pose proof (limits_sound_proof L F ts d r Hp He) as Hs. rewrite Hr in Hs. exact Hs.
+Qed.
+
+Theorem limits_cumulative_depth_le_proof : forall L F ts d r,
+  parse (strip ts) = Ok d r -> (0 < L)%Z -> fst (fst (lim_run true true L F ts linit)) = LOk ->
+  (depth_sum d <= L)%Z.
+Proof.
+  intros L F ts d r Hp HL Hacc. destruct (Z_lt_le_dec L (depth_sum d)) as [Hlt|Hle]; [|exact Hle].
+  exfalso. exact (limits_cumulative_depth_sound_proof L F ts d r Hp HL Hlt Hacc).
+Qed.
+
+(* an accepted document: every operation, with its fragments spread, is within the depth limit *)
+Theorem limits_inlined_depth_sound_proof : forall L F ts d r o,
+  parse (strip ts) = Ok d r -> (0 < L)%Z -> fst (fst (lim_run true true L F ts linit)) = LOk ->
+  In (DOp o) d -> (depth_inlined d o <= L)%Z.
+Proof.
+  intros L F ts d r o Hp HL Hacc Hin.
+  pose proof (depth_inlined_le_sum_proof d o Hin) as H1.
+  destruct (Z_lt_le_dec L (depth_sum d)) as [Hlt|Hle]; [|apply (Z.le_trans _ _ _ H1 Hle)].
+  exfalso. apply (limits_cumulative_depth_sound_proof L F ts d r Hp HL Hlt). exact Hacc.
 Qed.
 
 (* hypotheses of roundtrip_partial are satisfiable *)
